@@ -67,6 +67,16 @@ def _sign_tests(node):
         txt = src(c.c[0].strip_casts())
         if (c.op == "<" and k in (0, 1)) or (c.op == "<=" and k in (-1, 0)):
             out.append((txt, "neg"))
+            # (a | b) < 0: the sign bit of an OR is the OR of the sign bits - every operand is tested
+            def ors(x):
+                x = x.strip_casts()
+                if x.k == "BinaryOperator" and x.op == "|":
+                    return ors(x.c[0]) + ors(x.c[1])
+                return [x]
+            if k == 0 and c.op == "<":
+                for o_ in ors(c.c[0]):
+                    if src(o_) != txt:
+                        out.append((src(o_), "neg"))
         elif (c.op == ">" and k in (0, -1)) or (c.op == ">=" and k in (0, 1)):
             out.append((txt, "pos"))
     return out
